@@ -168,6 +168,13 @@ def run_cell(impl, via, cell, out):
         want_up = ['websocket'] if (cell['allow'] and 'websocket' in allowed and cell['ws_avail']
                                     and via == 'polling') else []
         V = lambda kind, trig, text: out.append(_viol(impl, kind, trig, text, cell, via))   # noqa: E731
+        seen_at_answer = []
+
+        def observer(req, status):
+            # runs inside the gateway callback that receives the answer (start_response / ASGI send)
+            if str(status)[:3] == '401':
+                seen_at_answer.append(sorted(w.table_sids()))
+        w.on_response_start = [observer]
         if via == 'polling':
             r = w.http('GET', peer.BASEQ + ('&j=0' if cell['jsonp'] else ''))      # 0 is the first callback index a JSONP client uses
             w.run()
@@ -303,6 +310,9 @@ def run_cell(impl, via, cell, out):
                           % (via, other, got_o, want_o))
             return 'accepted'
         # rejection
+        if seen_at_answer and any(hsid in t for t in seen_at_answer):
+            V('rejected_sid_addressable', 'outcome=' + cell['outcome'], 'when the 401 was handed to the gateway the rejected id was still in the '
+              'session table (%r)' % (seen_at_answer[0],))
         if status != 401:
             V('reject_status', 'outcome=' + cell['outcome'], 'rejected connect answered %r' % status)
         elif via == 'polling' or impl == 'sync':
